@@ -550,12 +550,30 @@ non-asynchronous one with its xid -/
 def Answered (m : Msg) (g : List Reply) : Prop :=
   (∀ r ∈ g, Correlated m r) ∧ (IsRequest m → ∃ r, g = [r] ∧ r.xid? = some m.xid ∧ r.isAsync = false)
 
+/-- the groups written for a history correspond one-to-one, in order, to its messages, each being `Answered` -/
+inductive AllAnswered : List Msg → List (List Reply) → Prop
+  | nil : AllAnswered [] []
+  | cons {m : Msg} {g : List Reply} {ms : List Msg} {gs : List (List Reply)} :
+      Answered m g → AllAnswered ms gs → AllAnswered (m :: ms) (g :: gs)
+
+/-- indexed reading of `AllAnswered`: as many groups as messages, and the i-th group answers the i-th message -/
+theorem allAnswered_index {ms : List Msg} {gs : List (List Reply)} (h : AllAnswered ms gs) :
+    gs.length = ms.length ∧ ∀ i (h1 : i < ms.length) (h2 : i < gs.length), Answered ms[i] gs[i] := by
+  induction h with
+  | nil => exact ⟨rfl, fun i h1 _ => absurd h1 (Nat.not_lt_zero i)⟩
+  | cons ha _ ih =>
+    refine ⟨by simp [ih.1], ?_⟩
+    intro i h1 h2
+    cases i with
+    | zero => exact ha
+    | succ j => exact ih.2 j (by simpa using h1) (by simpa using h2)
+
 /-- **history_answered**: for every state and every admissible request history of any length, handling never fails and
 the groups written correspond one-to-one and in order to the messages: every request of the history is answered exactly
 once with its own xid, whatever came before it; nothing else but asynchronous notifications and errors with the
 offending message's xid is written. -/
 theorem history_answered (s : SwitchState) (ms : List Msg) (h : Admissible ms) :
-    ∃ s' gs, run s ms = .ok (s', gs) ∧ List.Forall₂ Answered ms gs := by
+    ∃ s' gs, run s ms = .ok (s', gs) ∧ AllAnswered ms gs := by
   induction ms generalizing s with
   | nil => exact ⟨s, [], rfl, .nil⟩
   | cons m ms ih =>
@@ -575,7 +593,7 @@ complete answers to everything before it (each earlier request answered once, wi
 for what follows. -/
 theorem history_barrier (s : SwitchState) (before after : List Msg) (x : Nat) (hb : Admissible before) (ha : Admissible after) :
     ∃ s' g1 g2, run s (before ++ .barrierRequest x :: after) = .ok (s', g1 ++ [.barrierReply x] :: g2) ∧
-      List.Forall₂ Answered before g1 ∧ List.Forall₂ Answered after g2 ∧
+      AllAnswered before g1 ∧ AllAnswered after g2 ∧
       stream (g1 ++ [.barrierReply x] :: g2) = stream g1 ++ .barrierReply x :: stream g2 := by
   obtain ⟨s1, g1, e1, f1⟩ := history_answered s before hb
   obtain ⟨s2, g2, e2, f2⟩ := history_answered s1 after ha
@@ -646,7 +664,8 @@ theorem step_ident {s s' : SwitchState} {m : Msg} {o : List Reply} (hu : PortsUn
     intro hk
     have : s'.ports.map (·.no) = s.ports.map (·.no) := by
       have := congrArg (List.map Prod.fst) hk
-      simpa [portKeys, List.map_map, Function.comp] using this
+      simp only [portKeys, List.map_map] at this
+      exact this
     unfold PortsUnique; rw [this]; exact hu
   rcases step_cases h with hf | ⟨x, f, l, _, rfl⟩ | ⟨x, _, rfl⟩ | ⟨x, p, hw, c, mk, _, rfl⟩
   · have hp : s'.ports = s.ports := congrArg Fixed.ports hf
@@ -783,6 +802,23 @@ example : demoState.ports.find? (·.no == 9) = none ∧ knownPort demoState 9 = 
 /-- the buffer hypotheses of `silent_kinds` / `errors_spec` are satisfiable: after a packet-in slot 1 is live, slot 2 flushed -/
 example : bufferLive { demoState with buffers := [true, false] } 1 = true ∧
     ({ demoState with buffers := [true, false] } : SwitchState).buffers[2 - 1]? = some false := by decide
+/-- the hypotheses of the history theorems hold for a concrete mixed history and state -/
+example : Admissible [.hello 1, .echoRequest 2 [1, 2, 3], .flowMod 3 0 (some 1) 5 9 1 0 0 65535 (some 4) [⟨0, 65533⟩],
+    .statsRequest 4 (.other 65535), .portMod 5 1 7 1 1, .barrierRequest 6, .packetOut 7 (some 1) false [⟨65535, 0⟩]] ∧
+    PortsUnique demoState := by
+  refine ⟨?_, by show ([1] : List Nat).Nodup; decide⟩
+  intro m hm
+  simp only [List.mem_cons, List.mem_nil_iff, or_false] at hm
+  rcases hm with rfl | rfl | rfl | rfl | rfl | rfl | rfl
+  · exact ⟨rfl, trivial, trivial⟩
+  · exact ⟨rfl, trivial, trivial⟩
+  · refine ⟨rfl, trivial, ?_⟩
+    intro a ha; simp only [List.mem_singleton] at ha; subst ha; decide
+  · exact ⟨rfl, by show (6 : Nat) ≤ 65535; decide, trivial⟩
+  · exact ⟨rfl, trivial, trivial⟩
+  · exact ⟨rfl, trivial, trivial⟩
+  · refine ⟨rfl, trivial, ?_⟩
+    intro a ha; simp only [List.mem_singleton] at ha; subst ha; decide
 /-- a whole sequence: add a flow, read the table, barrier, delete with notification, read again -/
 example : (run demoState
     [.flowMod 1 0 none 9 42 1 0 0 65535 none [⟨0, 3⟩], .statsRequest 2 .table, .barrierRequest 3,
